@@ -282,6 +282,25 @@ func (g *gen) families12() {
 			}
 		}
 	}
+	// large tensors: sizes around block boundaries a vectorised / parallel reader might use
+	for _, dt := range val.Supported {
+		for _, raw := range []bool{false, true} {
+			for _, shape := range [][]int{{4097}, {17, 241}, {257, 255}, {1, 9, 911}, {65537}} {
+				if !g.mine() || g.stop {
+					continue
+				}
+				v := GenVal(r, dt, shape)
+				tp := mb.TensorProto(&mb.Init{Name: "t", V: v, Raw: raw})
+				holder := "initializer"
+				if len(shape) == 2 {
+					holder = "constant"
+				}
+				g.run(&Case{Family: "tensor-fault-free-large", Base: fmt.Sprintf("%s/raw=%v/%v/%s", dt, raw, shape, holder), Reader: "bytes", ZipFail: -1, Data: holderModels(tp)[holder]}, true)
+			}
+		}
+	}
+	// extents whose product, or whose product times the element width, overflows 64-bit arithmetic
+	g.overflowFamily()
 	// U. byte-level single-fault spaces of small weight-only files, exhaustively
 	for _, b := range weightOnly {
 		g.singleFaultSweep("single-fault-weight-file", b, "bytes", 1)
@@ -350,5 +369,44 @@ func (g *gen) random12(weightOnly []base) {
 		}
 		g.idx++
 		g.run(c, changed || nf == 0)
+	}
+}
+
+// OverflowTensors: stored tensors whose declared element count (or byte size) wraps around in 64-bit
+// arithmetic so that it seems to match a tiny or empty payload.
+func OverflowTensors() []*onnx.TensorProto {
+	var out []*onnx.TensorProto
+	dimsets := [][]int64{
+		{1 << 62}, {1<<62 + 1}, {1<<62 + 3}, {1 << 61}, {1<<61 + 1}, {1<<61 + 2}, {1 << 63 >> 1}, {1<<63 - 1},
+		{1 << 31, 1 << 31}, {1 << 31, 1 << 30}, {1 << 32, 1 << 32}, {1 << 32, 1 << 32, 3}, {3, 1 << 62}, {1 << 33, 1 << 31, 1},
+		{1 << 60, 4}, {1 << 60, 8}, {1 << 60, 16}, {1<<32 + 1, 1 << 32}, {-1 << 63}, {-1, -1}, {1 << 16, 1 << 16, 1 << 16, 1 << 16},
+	}
+	for _, dt := range val.Supported {
+		for _, dims := range dimsets {
+			for _, nbytes := range []int{0, 1, 4, 8, 12, 24} {
+				out = append(out, &onnx.TensorProto{Name: "t", DataType: int32(dt), Dims: append([]int64{}, dims...), RawData: make([]byte, nbytes)})
+			}
+			// typed field with 0..3 elements
+			for n := 1; n <= 3; n += 2 {
+				tp := populated(int32(dt), map[val.DT]string{val.Float32: "float_data", val.Float64: "double_data", val.Int64: "int64_data", val.Uint64: "uint64_data", val.Uint32: "uint64_data"}[dt], dims, n)
+				if len(tp.FloatData)+len(tp.DoubleData)+len(tp.Int64Data)+len(tp.Uint64Data) == 0 {
+					tp = populated(int32(dt), "int32_data", dims, n)
+				}
+				out = append(out, tp)
+			}
+		}
+	}
+	return out
+}
+
+func (g *gen) overflowFamily() {
+	for _, tp := range OverflowTensors() {
+		holderModels(tp).each(func(holder string, data []byte) {
+			if !g.mine() || g.stop {
+				return
+			}
+			g.run(&Case{Family: "extent-overflow", Base: fmt.Sprintf("dt=%d dims=%v raw=%d/%s", tp.DataType, tp.Dims, len(tp.RawData), holder), Reader: "bytes", ZipFail: -1, Data: data,
+				Faults: []medium.Fault{{Kind: "tensor:extent-overflow"}}}, true)
+		})
 	}
 }
